@@ -287,6 +287,15 @@ class Gfa(Lines,GraphOperations,RGFA):
                   l.to_str(add_virtual_commentary=False))+
               "does not exist, but is required by the following paths:\n"+
               l.refstr())
+      # a placeholder link created for another path may have been replaced
+      # by a link with a different overlap
+      required = pt._compute_required_links()
+      if len(required) == len(pt.links):
+        for (sfrom, sto, cigar), ol in zip(required, pt.links):
+          if not ol.line.is_compatible(sfrom, sto, cigar, True):
+            raise gfapy.NotFoundError("Path: {}\n".format(pt)+
+              "requires a non-existing link:\n"+
+              "from={} to={} cigar={}".format(sfrom, sto, cigar))
 
   def __validate_group_items(self):
     if self.version == "gfa1":
